@@ -106,7 +106,10 @@ class Taint:
                                 cn_ = sd_[3]['rv']['aggregate']['closure']
                                 cb_ = self.facts.body(cn_)
                                 if cb_ is not None:
-                                    self.analyse(cn_, list(range(1, cb_.arg_count + 1)))
+                                    # the environment (parameter 1) is tainted only if something captured is; the call parameters
+                                    # come from the combinator's receiver and are
+                                    cap_t = any(lc_ in T for o_ in sd_[3]['rv'].get('ops', []) for lc_ in operand_locals(o_))
+                                    self.analyse(cn_, ([1] if cap_t else []) + list(range(2, cb_.arg_count + 1)))
                     try:
                         ok_ext = self.allowed(fn2 or '', t['call'].get('generic') or [])
                     except TypeError:
